@@ -962,3 +962,83 @@ class Program:
 
 class AnchorMissing(Exception):
     pass
+
+
+# ---------------------------------------------------------------------------------------------
+# MIR-level inlining of private helpers (used by the abstract interpreters of Engines E/F so that a loop moved into a
+# helper function is analysed in place)
+
+def _remap(obj, loff, boff, poff):
+    """deep copy of a statement/terminator/place/operand with locals shifted by loff, promoted indices by poff"""
+    if isinstance(obj, list):
+        return [_remap(x, loff, boff, poff) for x in obj]
+    if isinstance(obj, dict):
+        out = {}
+        for k, v in obj.items():
+            if k == "l" and isinstance(v, int):
+                out[k] = v + loff
+            elif k == "index" and isinstance(v, int):
+                out[k] = v + loff
+            elif k == "promoted" and isinstance(v, int):
+                out[k] = v + poff
+            elif k in ("sp", "fn_sp", "callee", "arg_tys"):
+                out[k] = v
+            else:
+                out[k] = _remap(v, loff, boff, poff)
+        return out
+    return obj
+
+
+def inline_calls(prog, body, should_inline, max_depth=2):
+    """new Body in which every call to a crate-local callee accepted by should_inline(callee_body) is replaced by the
+    callee's blocks (locals and blocks renumbered, arguments copied into the parameters, the return value into the
+    destination).  Recursive callees are never inlined."""
+    raw = json.loads(json.dumps({k: v for k, v in body.raw.items()}))
+    changed = False
+    for _depth in range(max_depth):
+        did = False
+        nblocks = len(raw["blocks"])
+        for bi in range(nblocks):
+            blk = raw["blocks"][bi]
+            t = blk["term"]
+            if blk.get("cleanup") or t["k"] != "call" or t.get("target") is None:
+                continue
+            cb = prog.local_callee_body(t)
+            if cb is None or cb.key == body.key or cb.is_closure or not should_inline(cb):
+                continue
+            craw = cb.raw
+            loff = len(raw["locals"])
+            boff = len(raw["blocks"])
+            poff = len(raw.get("promoted", []))
+            raw["locals"].extend(json.loads(json.dumps(craw["locals"])))
+            raw.setdefault("promoted", []).extend(json.loads(json.dumps(craw.get("promoted", []))))
+            # arguments → parameters
+            for ai, a in enumerate(t["args"]):
+                blk["stmts"].append({"k": "assign", "dst": {"l": loff + 1 + ai, "p": []}, "rv": {"k": "use", "a": a}, "sp": t["sp"]})
+            dst, target = t["dst"], t["target"]
+            blk["term"] = {"k": "goto", "target": boff, "sp": t["sp"]}
+            for cbi, cblk in enumerate(craw["blocks"]):
+                nb = {"stmts": _remap(cblk["stmts"], loff, boff, poff), "cleanup": cblk.get("cleanup", False)}
+                ct = cblk["term"]
+                k = ct["k"]
+                if k == "return":
+                    nb["stmts"].append({"k": "assign", "dst": dst, "rv": {"k": "use", "a": {"k": "move", "pl": {"l": loff, "p": []}}}, "sp": ct["sp"]})
+                    nb["term"] = {"k": "goto", "target": target, "sp": ct["sp"]}
+                else:
+                    nt = _remap(ct, loff, boff, poff)
+                    for key in ("target", "otherwise", "cleanup"):
+                        if isinstance(nt.get(key), int):
+                            nt[key] = nt[key] + boff
+                    if k == "switch":
+                        nt["arms"] = [[v, tg + boff] for v, tg in ct["arms"]]
+                    nb["term"] = nt
+                raw["blocks"].append(nb)
+            did = True
+            changed = True
+        if not did:
+            break
+    if not changed:
+        return body
+    nbdy = Body(prog, raw, track_mut=body.track_mut)
+    nbdy.inlined = True
+    return nbdy
